@@ -159,6 +159,12 @@ def _optimize_contractions(relevant_obj_names: tuple[str],
         # remove the contracted names and indices
         remaining_pos = [pos for pos in range(len(relevant_obj_names))
                          if pos not in group]
+        # the contraction must not sum over an index that also occurs on an
+        # object outside of the group (groups returned by _group_objects
+        # are not necessarily closed with respect to their contracted indices)
+        if any(idx in relevant_obj_indices[pos]
+               for pos in remaining_pos for idx in contraction.contracted):
+            continue
         remaining_names = (contraction.contraction_name,
                            *(relevant_obj_names[pos] for pos in remaining_pos))
         remaining_indices = (contraction.target, *(relevant_obj_indices[pos]
